@@ -151,6 +151,53 @@ class OpaqueStr:
     def __init__(self, desc=""):
         self.desc = desc
 
+    # Everything that depends on the CHARACTERS of such a string is unconstrained (a fresh value per use): sound for
+    # universally quantified postconditions, which may only talk about the recorded pieces / arguments.
+    def sym_len(self, ex):
+        t = z3.FreshInt("opaque_len")
+        ex.assume(t >= 0)
+        return SNum(t, True)
+
+    def sym_contains(self, ex, item):
+        return SBool(z3.FreshBool("opaque_in"))
+
+    def sym_getslice(self, ex, lo, hi, step):
+        r = OpaqueStr("slice")
+        r.of, r.bounds = self, (lo, hi, step)
+        if hasattr(self, "parts"):
+            r.parts = list(self.parts)  # a superset of what the slice shows
+        return r
+
+    def sym_method(self, ex, name, args, kw):
+        if name == "format":
+            r = OpaqueStr("format")
+            r.template, r.args, r.kwargs = self, list(args), dict(kw)
+            return r
+        if name in ("split", "rsplit", "splitlines"):
+            return OpaqueStrList(self)
+        r = OpaqueStr(name)
+        r.of = self
+        return r
+
+
+class OpaqueStrList:
+    """str.split of an opaque string: at least one piece, every piece opaque"""
+
+    def __init__(self, of):
+        self.of = of
+
+    def sym_len(self, ex):
+        t = z3.FreshInt("opaque_pieces")
+        ex.assume(t >= 1)
+        return SNum(t, True)
+
+    def sym_getitem(self, ex, i):
+        if isinstance(i, int) and i in (0, -1):
+            r = OpaqueStr("split-item")
+            r.of = self.of
+            return r
+        raise Unsupported("piece of an opaque split beyond the first/last")
+
 
 # ------------------------------------------------------------------ bounded strings
 class BStr:
